@@ -5,7 +5,9 @@ harness' own natural-layout model computed from the USER's field list (vlib.defg
 struct alignment = strictest member, size rounded up, array stride = element size, recursion through nested structs and
 aliases), cross-checked by two real C ABIs: ctypes structures built by the check from the emitted field list, and - for
 a sample in quick, for every accepted closure in thorough - gcc compiling the generated C header with a probe that
-prints sizeof / _Alignof / offsetof.
+prints sizeof / _Alignof / offsetof.  Which emitted fields are padding is decided by position (what is not the user's), so user
+fields may bear the names of the compiler's own padding fields.  Histories (vlib.defgen_layout): several closures parsed by ONE
+Parser object, later ones redefining names of earlier ones; every parse must equal a fresh Parser's and satisfy the model.
 """
 from __future__ import annotations
 
@@ -18,6 +20,7 @@ import subprocess
 import time
 
 from vlib import defgen as G
+from vlib import defgen_layout as L
 from vlib.common import HarnessError, Result, RunContext, Violation, conclude, derive_seed, hyp_run, run_shards
 
 RULE = ("Hypothesis draws definition closures for the layout profile: 1-2 files, aliases of natives and of aliases, 1-5 structs and 1-3 messages "
@@ -29,20 +32,41 @@ RULE = ("Hypothesis draws definition closures for the layout profile: 1-2 files,
         "sequences of <= 4 fields over {1,2,4,8}-byte scalars and arrays of length 1 and 3 (22620 structs, each also as element of an array "
         "inside a wrapper message after a single byte) is enumerated completely in both tiers, auto_pad on and off, and so is a table of "
         "definitions whose declared bytes total 65520..65551 for strictest alignment 1/2/4/8. The configuration itself is chosen in every "
-        "documented way: Parser(...) arguments (all of the above), and a deterministic matrix of 4 layouts (interior padding, trailing "
-        "padding, none, arrays) x auto_pad on/off through compile(...) keyword arguments, command line flags (--no_auto_pad, "
+        "documented way: Parser(...) arguments (all of the above), and a deterministic matrix of 5 layouts (interior padding, trailing "
+        "padding, none, arrays, user fields named like padding fields) x auto_pad on/off through compile(...) keyword arguments, command line flags (--no_auto_pad, "
         "--no_core_import) and a compiler_options section in the root file (AUTO_PAD, VALIDATE_ALIGNMENT, IMPORT_COREDEFS; honoured by the "
         "command line), each compiled to a C header whose declared fields must be the user's list with padding exactly in the natural "
-        "gaps, or rejected with AlignmentError (exit status 1, no output); thorough adds random layout closures through drawn entry points. Oracle: accepted <=> "
+        "gaps, or rejected with AlignmentError (exit status 1, no output); thorough adds random layout closures through drawn entry points. "
+        "The matrix also holds the CONFLICTING combinations: an explicit compile() keyword argument (auto_pad / validate_alignment, either value) or an "
+        "explicit command line switch (--no_auto_pad, --no_val_align) against the opposite AUTO_PAD / VALIDATE_ALIGNMENT entry in the root file's "
+        "compiler_options section - the explicit choice must take effect (the file only provides the command line's defaults). "
+        "Generator class padding-name: user fields called padding_<n>_ (n = 0..3, the names of the compiler's own padding fields) in definitions "
+        "with interior gaps, trailing gaps and none: a covering table (6 layouts x every field / all fields so named, struct, array element, message, "
+        "auto_pad on/off), drawn layout closures with such names, and one layout of the configuration matrix. "
+        "HISTORIES on one Parser object: 2-3 layout closures parsed one after the other by the same instance in the same directory (Parser.clear() "
+        "after an accepted parse; after a rejected parse - rejected by the layout rules, or by a deliberate fault at the very end of the root file "
+        "(unknown field type, repeated message id) so that every layout was computed before - clear() is called or not, parse() has cleared itself); "
+        "later closures keep the struct / message / alias names of earlier ones with other field lists (a native field of the same byte size and "
+        "another alignment, another length, another type, fields inserted / deleted / swapped, a fresh list, an alias retargeted, or an independent "
+        "closure under the same names); a table enumerates all ordered pairs of 9 field lists (8 bytes aligned 2/8/1/4, 4 bytes aligned 4/2/1, 3 and "
+        "16 bytes) for one nested struct x 3 transitions x auto_pad on/off. Every parse of a history must have the outcome of a FRESH Parser on the same "
+        "files (accepted / exception class; alignment, size and per field name, type, length, offset, alignment, size incl. padding fields) and satisfy "
+        "the layout model below. Oracle: accepted <=> "
         "(auto_pad on or the natural layout of the user's list needs no padding anywhere) and natural size <= 65535, else AlignmentError / "
-        "InvalidMessageSize; for every accepted definition the emitted fields minus 'padding_<n>_' char fields equal the user's list "
-        "(names, types, lengths, order), every field starts at a multiple of its alignment, the size is the sum of the emitted fields, a "
+        "InvalidMessageSize; for every accepted definition the user's list (names, types, lengths, order) is contained in the emitted list in "
+        "order, everything else in the emitted list is a char padding field (padding is what is NOT the user's, by position - not by name), no two "
+        "emitted fields of a definition bear the same name, every field starts at a multiple of its alignment, the size is the sum of the emitted fields, a "
         "multiple of the strictest alignment and equal to the natural sizeof, and ctypes / gcc place every emitted field exactly at the "
         "running sum. Non-trivial = a definition that needs >= 1 padding byte or nests a struct of alignment < 8; distinct = (auto_pad, "
-        "outcome, per field (alignment, scalar/array, native/nested), gap positions).")
+        "outcome, per field (alignment, scalar/array, native/nested), gap positions); for histories (auto_pad, per parse fault?/outcome, clear() "
+        "pattern, kinds of redefinition), non-trivial when a later closure redefines a name.")
 ASSUME = [
     "natural alignment of a native type is its size; x86-64 SysV ABI of this machine (gcc 12, ctypes) stands for 'every C compiler'",
-    "a padding field is recognised by its name 'padding_<n>_'; the generator never uses such names for user fields",
+    "a padding field is an emitted field that is not the user's (the user's list is matched as a subsequence from the left); padding NAMES are a don't-care except that no two fields of one emitted definition may share a name (every output addresses fields by name: a C struct with a duplicate member does not compile, a ctypes class keeps one of the two) - key user-field-shadowed-by-padding",
+    "precedence of configuration sources, read off the unchanged package (no document beyond these): compile()'s docstring defines its keyword arguments as THE configuration (compile() never reads compiler_options); main() reads the root file's compiler_options 'to replace the defaults prior to parsing command line args', so an explicit --no_auto_pad / --no_val_align wins over the file. Not asserted (no document decides): compile() called WITHOUT the keyword argument against an entry in the file; IMPORT_COREDEFS conflicts (no layout consequence)",
+    "with --no_val_align given explicitly against VALIDATE_ALIGNMENT: true in the file the expected result is the documented effect of switching validation off (accepted, nothing padded: 'auto_pad has no effect if validate_alignment is False'); this is asserted only as the observable of the precedence rule, two cases",
+    "histories: Parser.clear() is public and is what parse() itself calls on rejection; a cleared Parser is expected to behave like a new one. Nothing is claimed about a second parse() WITHOUT clear() after an accepted one (tests/test_parser.py relies on accumulation), so clear() is always called there",
+    "a history step with a deliberate late fault has no layout expectation; only equality with a fresh Parser (same exception class) is asserted for it",
     "equality of the padded size with the natural sizeof (minimal padding) is asserted because 'accepted exactly when it needs none' defines what is needed; it has its own finding key (padding-not-minimal)",
     "arrays declared with length 0 are not layouts (rejected as a syntax error since the fix of F21) and are not generated",
     "a gcc failure or timeout on a generated header is counted as inconclusive, never as a violation (loading in C is property C15)",
@@ -50,9 +74,6 @@ ASSUME = [
     "every type name in pyrtma.parser.supported_types counts as a native type of the quantifier 'all native widths' (that table is the compiler's own statement of what it supports), also names no document lists",
     "with validate_alignment off nothing is claimed by the property; such programs are not part of this check",
 ]
-
-PAD_RE = re.compile(r"padding_\d+_$")
-
 
 # ----------------------------------------------------------------------------------------------
 # expectation from the model
@@ -215,6 +236,7 @@ def _judge(p, out, exp, at, trace, res, gcc, only):
     cb = _CBuilder(p, emitted)
     ub = _CBuilder(p, lambda n: [(f.name, f.base, f.length) for f in p.user_fields(n)])
     sizes = {}
+    padded_any = False
     for d in p.defs:
         if d.kind not in ("struct", "message") or (only and d.name not in only):
             continue
@@ -222,11 +244,19 @@ def _judge(p, out, exp, at, trace, res, gcc, only):
         obj = ps.struct_defs.get(name) if d.kind == "struct" else ps.message_defs.get(name)
         em = emitted(name)
         user = [(f.name, f.base, f.length) for f in p.user_fields(name)]
-        pads = [e for e in em if PAD_RE.match(e[0])]
-        rest = [e for e in em if not PAD_RE.match(e[0])]
+        pad_idx, found = L.split_emitted(em, user)
+        pad_pos = set(pad_idx)
+        pads = [em[i] for i in pad_idx]
         what = f"auto_pad {ap}: {_describe(p, name)}"
-        if rest != user:
-            raise Violation("user-fields-changed", f"{what}: emitted fields without padding are {rest}, the user declared {user}", trace)
+        if not found:
+            raise Violation("user-fields-changed", f"{what}: the emitted fields are {em}; the user's list {user} is not contained in it in this order "
+                            f"(a user field was dropped, resized, retyped, renamed or moved)", trace)
+        enames = [e[0] for e in em]
+        dup = sorted({n for n in enames if enames.count(n) > 1})
+        if dup and len({u[0] for u in user}) == len(user):
+            raise Violation("user-field-shadowed-by-padding", f"{what}: the emitted field list {em} has two fields called {dup}: the user's field and a "
+                            f"padding field the compiler added under the same name. Fields are addressed by name in every output, so the user's "
+                            f"field is lost there (the C header has a duplicate member, the generated Python class keeps only one of the two)", trace)
         for e in pads:
             if e[1] != "char":
                 raise Violation("padding-not-char", f"{what}: padding field {e} is not of type char", trace)
@@ -234,12 +264,12 @@ def _judge(p, out, exp, at, trace, res, gcc, only):
             raise Violation("padding-added-with-auto-pad-off", f"{what}: padding fields {pads} were added although auto_pad is off", trace)
         off, maxal, uoffs = 0, 1, []
         offs = []
-        for fn, tn, ln in em:
+        for k, (fn, tn, ln) in enumerate(em):
             es, al = G.type_size_align(p, tn)
             if off % al:
                 raise Violation("field-misaligned", f"{what}: emitted layout {em} puts {fn} ({tn}, alignment {al}) at offset {off}", trace)
             offs.append(off)
-            if not PAD_RE.match(fn):
+            if k not in pad_pos:
                 uoffs.append(off)
             off += es * (ln or 1)
             maxal = max(maxal, al)
@@ -262,10 +292,13 @@ def _judge(p, out, exp, at, trace, res, gcc, only):
         if ctypes.sizeof(ub.struct(name)) != lay.size:
             raise HarnessError(f"layout model disagrees with ctypes for the user's list of {name}: {lay.size} vs {ctypes.sizeof(ub.struct(name))}")
         sizes[name] = (off, maxal, offs, em)
+        padded_any = padded_any or bool(pads)
         if res is not None:
             res.count("definitions-checked")
             if pads:
                 res.count("definitions-with-auto-padding")
+            if "padding-name" in d.flags:
+                res.count("definitions-with-user-fields-named-like-padding" + ("/and-auto-padding" if pads else "/no-auto-padding"))
             if d.reuse:
                 res.count("definitions-with-reuse")
             if nontrivial(p, name):
@@ -275,10 +308,11 @@ def _judge(p, out, exp, at, trace, res, gcc, only):
         res.count("programs")
         res.count(f"outcome/ok/auto_pad-{ap}")
         for c in ("boundary-size", "explicit-padding", "struct-array", "alias-field", "alias-of-imported-struct", "alias-of-imported-struct-field", "struct-contains-message", "nested-align-1", "nested-align-2", "nested-align-4",
-                  "nested-align-8", "cross-file-struct-field", "expr-length", "message-in-message"):
+                  "nested-align-8", "cross-file-struct-field", "expr-length", "message-in-message", "padding-name", "padding-name/interior-gap",
+                  "padding-name/trailing-gap", "padding-name/no-gap"):
             if c in p.classes:
                 res.count("class/" + c)
-        if len(res.samples) < 3 and any(PAD_RE.match(e[0]) for _, _, _, em in sizes.values() for e in em) and len(sizes) <= 4:
+        if len(res.samples) < 3 and padded_any and len(sizes) <= 4:
             res.sample({"auto_pad": p.auto_pad, "files": p.files, "emitted": {n: v[3] for n, v in sizes.items()}})
     if gcc and not p.import_coredefs and sizes:
         gcc_probe(p, ps, out.root, sizes, trace, res)
@@ -346,12 +380,17 @@ CFG_LAYOUTS = {
     "trailing": [("a", "double", None), ("b", "int16", None)],
     "none": [("a", "int32", None), ("b", "int16", None), ("c", "int16", None)],
     "array-interior": [("a", "char", 3), ("b", "uint64", 2)],
+    "padding-names": [("padding_0_", "uint8", None), ("b", "int32", None), ("padding_1_", "int16", None)],
 }
 STRUCT_RE = re.compile(r"typedef struct \{(.*?)\}\s*(\w+);", re.S)
 CFIELD_RE = re.compile(r"^\s*(.+?)\s+(\w+)(?:\[(\d+)\])?;\s*$", re.M)
 
 
-def config_program(layout: str, auto_pad: bool, way: str, core: bool = False, explicit_validate: bool = False, yaml_core: bool = False) -> G.Program:
+def config_program(layout: str, auto_pad: bool, way: str, core: bool = False, explicit_validate: bool = False, yaml_core: bool = False,
+                   file_opts: dict = None, validate: bool = True) -> G.Program:
+    """``auto_pad`` / ``validate`` / ``core`` are the configuration the CALLER chooses (keyword arguments of compile(), command line
+    switches, or - way yaml-options - the compiler_options section); ``file_opts`` are entries written into the root file's
+    compiler_options section IN ADDITION, possibly saying the opposite of an explicit keyword argument / switch."""
     fields = [G.FieldSpec(n, t if ln is None else f"{t}[{ln}]", t, ln, None if ln is None else str(ln)) for n, t, ln in CFG_LAYOUTS[layout]]
     defs = [G.Def("struct", "CFG_REC", "root.yaml", fields=[G.FieldSpec(f.name, f.type_text, f.base, f.length, f.length_text) for f in fields]),
             G.Def("message", "CFG_MSG", "root.yaml", id=1234, fields=fields)]
@@ -362,7 +401,13 @@ def config_program(layout: str, auto_pad: bool, way: str, core: bool = False, ex
             spec.compiler_options["VALIDATE_ALIGNMENT"] = True
         if yaml_core or not core:
             spec.compiler_options["IMPORT_COREDEFS"] = core
-    p = G.Program([spec], "root.yaml", {"auto_pad": auto_pad, "validate_alignment": True, "import_coredefs": core}, "single", {"config-matrix", "layout/" + layout})
+    classes = {"config-matrix", "layout/" + layout}
+    if file_opts:
+        if way == "yaml-options":
+            raise HarnessError("file_opts belong to the ways with explicit arguments")
+        spec.compiler_options.update(file_opts)
+        classes.add("config-conflict")
+    p = G.Program([spec], "root.yaml", {"auto_pad": auto_pad, "validate_alignment": validate, "import_coredefs": core}, "single", classes)
     return p
 
 
@@ -375,16 +420,23 @@ def header_fields(text: str):
 
 def config_case(p: G.Program, way: str, res: Result = None):
     """Compile closure p to a C header through one entry point with the configuration written the way that entry point documents:
-    keyword arguments of pyrtma.compile.compile(), command line flags (--no_auto_pad, --no_core_import), or a compiler_options
-    section in the root file (honoured by the command line entry point).  Same oracle as at parser level."""
+    keyword arguments of pyrtma.compile.compile(), command line flags (--no_auto_pad, --no_val_align, --no_core_import), or a
+    compiler_options section in the root file (honoured by the command line entry point).  Same oracle as at parser level.
+    The root file may carry compiler_options that CONTRADICT an explicit keyword argument / command line switch: the explicit
+    choice (= p.options) is what must take effect."""
     import sys
 
-    exp, at = expected_outcome(p)
+    validating = p.validate_alignment
+    exp, at = expected_outcome(p) if validating else ("ok", None)
     trace = {"config": way, "program": p.to_json()}
     opts = p.spec(p.root).compiler_options
-    how = {"compile-kwargs": f"compile(auto_pad={p.auto_pad}, validate_alignment=True, import_coredefs={p.import_coredefs})",
-           "cli-flags": "python -m pyrtma.compile" + ("" if p.auto_pad else " --no_auto_pad") + ("" if p.import_coredefs else " --no_core_import"),
+    conflict = "config-conflict" in p.classes
+    infile = f" and compiler_options {opts} in the root file" if conflict else ""
+    how = {"compile-kwargs": f"compile(auto_pad={p.auto_pad}, validate_alignment={validating}, import_coredefs={p.import_coredefs}){infile}",
+           "cli-flags": "python -m pyrtma.compile" + ("" if p.auto_pad else " --no_auto_pad") + ("" if validating else " --no_val_align")
+                        + ("" if p.import_coredefs else " --no_core_import") + infile,
            "yaml-options": f"python -m pyrtma.compile with compiler_options {opts} in the root file"}[way]
+    fam = f"config/{way}" + ("/file-overrides-explicit-choice" if conflict else "")
     d = G.scratch_dir("c11cfg")
     try:
         root = p.write(os.path.join(d, "src"))
@@ -403,7 +455,7 @@ def config_case(p: G.Program, way: str, res: Result = None):
         else:
             args = [sys.executable, "-m", "pyrtma.compile", "-i", root, "--c", "-o", outdir, "-n", "defs"]
             if way == "cli-flags":
-                args += ([] if p.auto_pad else ["--no_auto_pad"]) + ([] if p.import_coredefs else ["--no_core_import"])
+                args += ([] if p.auto_pad else ["--no_auto_pad"]) + ([] if validating else ["--no_val_align"]) + ([] if p.import_coredefs else ["--no_core_import"])
             env = dict(os.environ)
             env["PYTHONPATH"] = os.path.join(os.environ.get("VERIF_REPO", "/repo"), "src")
             try:
@@ -421,32 +473,39 @@ def config_case(p: G.Program, way: str, res: Result = None):
         what = f"{how}, layout {[f.type_text for f in p.user_fields('CFG_MSG')] if p.has('CFG_MSG') else p.shape}"
         if got != exp:
             if exp == "ok":
-                raise Violation(f"config/{way}/rejected-although-acceptable", f"{what}: expected acceptance, got {got} {detail!r}", trace)
+                raise Violation(f"{fam}/rejected-although-acceptable", f"{what}: expected acceptance, got {got} {detail!r}", trace)
             if got == "ok":
-                raise Violation(f"config/{way}/accepted-although-{'padding-needed' if exp == 'AlignmentError' else 'oversize'}",
+                raise Violation(f"{fam}/accepted-although-{'padding-needed' if exp == 'AlignmentError' else 'oversize'}",
                                 f"{what}: {_describe(p, at)} needs {G.natural_layout(p, at).own_padding} padding byte(s) with auto_pad off "
                                 f"(size {G.natural_layout(p, at).size}); expected {exp}, but the compilation succeeded", trace)
-            raise Violation(f"config/{way}/wrong-error/{exp}/{got}", f"{what}: expected {exp}, got {got} {detail!r}", trace)
+            raise Violation(f"{fam}/wrong-error/{exp}/{got}", f"{what}: expected {exp}, got {got} {detail!r}", trace)
         if exp != "ok":
             if os.path.exists(hdr):
-                raise Violation(f"config/{way}/output-written-despite-error", f"{what}: {exp} was reported but {os.path.basename(hdr)} was written", trace)
+                raise Violation(f"{fam}/output-written-despite-error", f"{what}: {exp} was reported but {os.path.basename(hdr)} was written", trace)
         else:
             if not os.path.exists(hdr):
-                raise Violation(f"config/{way}/no-output", f"{what}: success reported but no header was written", trace)
+                raise Violation(f"{fam}/no-output", f"{what}: success reported but no header was written", trace)
             with open(hdr) as f:
                 got_fields = header_fields(f.read())
             for dd in p.defs:
                 if dd.kind not in ("struct", "message"):
                     continue
                 cn = ("MDF_" if dd.kind == "message" else "") + dd.name
-                want = [(n, ln) for n, _t, ln in G.emitted_fields(p, dd.name)]
-                if got_fields.get(cn) != want:
-                    raise Violation(f"config/{way}/emitted-layout", f"{what}: the C header declares {cn} with fields {got_fields.get(cn)}; the user's list "
-                                    f"with padding exactly in the gaps of the natural layout is {want}", trace)
+                slots = L.expected_slots(p, dd.name, padded=validating)
+                bad = L.header_mismatch(got_fields.get(cn), slots)
+                if bad and "declared twice" in bad:
+                    raise Violation(f"config/{way}/user-field-shadowed-by-padding", f"{what}: the C header declares {cn} with fields {got_fields.get(cn)}: {bad}", trace)
+                if bad:
+                    want = [(s_[1], s_[2]) if s_[0] == "user" else (f"<{s_[1]} padding byte(s)>", s_[2]) for s_ in slots]
+                    raise Violation(f"{fam}/emitted-layout", f"{what}: the C header declares {cn} with fields {got_fields.get(cn)}: {bad}; expected the "
+                                    f"user's list" + (" with padding exactly in the gaps of the natural layout" if validating else
+                                                      " as it is (alignment validation switched off explicitly: nothing is padded)") + f": {want}", trace)
         if res is not None:
             res.count("config-cases")
             res.count(f"config/{way}/{exp}")
-            res.shape("config", way, p.auto_pad, exp, tuple(sorted(opts.items())), p.import_coredefs, tuple(sorted(c for c in p.classes if c.startswith("layout/"))))
+            if conflict:
+                res.count(f"config-conflict/{way}/{'+'.join(f'{k}={v}' for k, v in sorted(opts.items()))}-in-file")
+            res.shape("config", way, p.auto_pad, validating, exp, tuple(sorted(opts.items())), p.import_coredefs, tuple(sorted(c for c in p.classes if c.startswith("layout/"))))
     finally:
         shutil.rmtree(d, ignore_errors=True)
 
@@ -458,7 +517,7 @@ def config_matrix():
         for ap in (True, False):
             cases.append((layout, ap, "compile-kwargs", {}))
             cases.append((layout, ap, "compile-kwargs", {"core": True}))
-            if layout != "array-interior":
+            if layout not in ("array-interior", "padding-names"):
                 cases.append((layout, ap, "cli-flags", {}))
                 cases.append((layout, ap, "yaml-options", {}))
     for layout in ("interior", "trailing", "none"):
@@ -466,6 +525,19 @@ def config_matrix():
         cases.append((layout, False, "yaml-options", {"core": True, "yaml_core": layout == "none"}))
     cases.append(("array-interior", False, "yaml-options", {}))
     cases.append(("array-interior", True, "cli-flags", {"core": True}))
+    cases.append(("padding-names", True, "cli-flags", {}))
+    # an explicit choice of the caller against the opposite entry in the root file's compiler_options section: the explicit choice counts
+    for layout in ("interior", "trailing", "none", "array-interior"):
+        for ap, fo in ((False, {"AUTO_PAD": True}), (True, {"AUTO_PAD": False}), (False, {"VALIDATE_ALIGNMENT": False}),
+                       (True, {"VALIDATE_ALIGNMENT": False}), (False, {"AUTO_PAD": True, "VALIDATE_ALIGNMENT": False}),
+                       (False, {"IMPORT_COREDEFS": False, "VALIDATE_ALIGNMENT": True, "AUTO_PAD": True})):
+            cases.append((layout, ap, "compile-kwargs", {"file_opts": fo}))
+    for layout in ("interior", "trailing", "none"):
+        cases.append((layout, False, "cli-flags", {"file_opts": {"AUTO_PAD": True}}))
+    cases.append(("interior", False, "cli-flags", {"file_opts": {"IMPORT_COREDEFS": False, "VALIDATE_ALIGNMENT": True, "AUTO_PAD": True}}))
+    cases.append(("array-interior", False, "cli-flags", {"file_opts": {"AUTO_PAD": True}, "core": True}))
+    for layout in ("interior", "trailing"):
+        cases.append((layout, True, "cli-flags", {"file_opts": {"VALIDATE_ALIGNMENT": True}, "validate": False}))
     return cases
 
 
@@ -479,6 +551,104 @@ def run_config_matrix(idx: int, nshards: int, res: Result):
             config_case(config_program(layout, ap, way, **kw), way, res)
         except Violation as v:
             res.add_finding(v.key, v.what, v.trace)
+
+
+# ----------------------------------------------------------------------------------------------
+# histories: several closures parsed one after the other by ONE Parser object
+
+
+def check_history(h: dict, res: Result = None):
+    """h = {"steps": [Program...], "clear": [bool...], "ops": [...]} (vlib.defgen_layout.build_layout_history).  One Parser object
+    parses the closures one after the other in one directory (each overwrites the files of the one before).  Before a parse that
+    follows an ACCEPTED one Parser.clear() is called (nothing is claimed about accumulating closures); after a rejected parse -
+    which has cleared the parser itself - clear() is called when clear[k] says so.  Every parse must have the outcome of a FRESH
+    Parser on the same closure (accepted / exception class, and the complete layout: alignment, size, and per field name, type,
+    length, offset, alignment, size, padding fields included), and - unless the step carries a deliberate late fault - the outcome
+    the layout model demands (_judge)."""
+    from pyrtma.parser import Parser
+
+    steps, clear = h["steps"], h["clear"]
+    trace = {"history": {"steps": [q.to_json() for q in steps], "clear": list(clear), "ops": h.get("ops")}}
+    d = G.scratch_dir("c11hist")
+    ps = Parser(**steps[0].compile_kwargs())
+    story, kinds = [], []
+    prev_ok = None
+    try:
+        for k, q in enumerate(steps):
+            if q.compile_kwargs() != steps[0].compile_kwargs():
+                raise HarnessError("all steps of a history share the options of the one Parser object")
+            if k and (prev_ok or clear[k]):
+                ps.clear()
+                story.append("clear()")
+            out = L.parse_on(ps, q, d)
+            fresh = G.parse_program(q, timeout=45.0)
+            if "Timeout" in (out.outcome, fresh.outcome):
+                if res is not None:
+                    res.inconclusive += 1
+                    res.count("inconclusive/parser-did-not-return-within-45s")
+                return
+            story.append(f"parse {k + 1}{' (' + q.fault['kind'] + ' at the end of the root file)' if q.fault else ''} -> {out.outcome}")
+            kinds.append(("fault" if q.fault else "plain", "accepted" if out.ok else "rejected"))
+            told = f"one Parser object: {', '.join(story)}; closure {k + 1} redefines names of the earlier one(s) by {h.get('ops', [[]] * (k + 1))[k]}"
+            if not q.fault:
+                try:
+                    exp, at = expected_outcome(q)
+                    _judge(q, out, exp, at, trace, None, False, None)
+                except Violation as v:
+                    if k == 0:
+                        raise
+                    raise Violation("history/" + v.key, f"{told}: {v.what}", trace)
+            if out.outcome != fresh.outcome:
+                raise Violation("history/differs-from-fresh-parser/outcome", f"{told}: the used Parser object answers {out.outcome}"
+                                f"{' (' + str(out.exc)[:160] + ')' if out.exc else ''}, a fresh Parser answers {fresh.outcome} to the same files", trace)
+            if out.ok:
+                a, b = L.snapshot(ps), L.snapshot(fresh.parser)
+                if a != b:
+                    diff = sorted(n for n in set(a) | set(b) if a.get(n) != b.get(n))
+                    n0 = diff[0]
+                    raise Violation("history/differs-from-fresh-parser/layout", f"{told}: the used Parser object and a fresh Parser both accept the files but "
+                                    f"hold different layouts for {diff[:4]}: {n0}: used parser (alignment, size, fields[(name, type, length, offset, "
+                                    f"alignment, size)]) = {a.get(n0)}, fresh parser = {b.get(n0)}", trace)
+            prev_ok = out.ok
+        if res is not None:
+            res.count("histories")
+            res.count("history/parses", len(steps))
+            for k, (f, o) in enumerate(kinds[:-1]):
+                res.count(f"history/earlier-parse/{o}" + ("-by-late-fault" if f == "fault" and o == "rejected" else "") + ("+clear()" if (o == "accepted" or clear[k + 1]) else ""))
+            res.count("history/last-parse/" + kinds[-1][1])
+            opn = sorted({o.split("/")[0] for ol in h.get("ops", []) for o in ol})
+            for o in opn:
+                res.count("history/redefinition/" + o)
+            if any(o != "same" for o in opn):
+                res.count("history/nontrivial")
+                res.shape("history", steps[0].auto_pad, tuple(kinds), tuple(bool(c) for c in clear), tuple(opn))
+    finally:
+        L.release(ps)
+        shutil.rmtree(d, ignore_errors=True)
+
+
+def _history_collect(h, res):
+    res.evaluations += 1
+    try:
+        check_history(h, res)
+    except Violation as v:
+        res.add_finding(v.key, v.what, v.trace)
+
+
+def history_table(idx: int, nshards: int, res: Result):
+    for i, h in enumerate(L.history_table()):
+        if i % nshards == idx:
+            res.count("history-table-cases")
+            _history_collect(h, res)
+
+
+def padname_table(idx: int, nshards: int, res: Result):
+    """User fields called padding_<n>_ (the names of the compiler's own padding fields) in layouts with interior / trailing / no gaps."""
+    for i, p in enumerate(L.padname_table()):
+        if i % nshards == idx:
+            res.evaluations += 1
+            res.count("padding-name-table-cases")
+            _run_collect(p, res)
 
 
 # ----------------------------------------------------------------------------------------------
@@ -610,13 +780,15 @@ def boundary_table(idx: int, nshards: int, res: Result):
 # ----------------------------------------------------------------------------------------------
 
 
-def shard(idx: int, nshards: int, seed: int, n_layout: int, n_general: int, gcc_every: int, n_cfg: int = 0):
+def shard(idx: int, nshards: int, seed: int, n_layout: int, n_general: int, gcc_every: int, n_cfg: int = 0, n_padname: int = 40, n_hist: int = 60):
     G.quiet()
     res = Result()
     exhaustive(idx, nshards, res)
     boundary_table(idx, nshards, res)
     native_name_table(idx, nshards, res)
     run_config_matrix(idx, nshards, res)
+    padname_table(idx, nshards, res)
+    history_table(idx, nshards, res)
     if n_cfg:
         rnd = G.RandomChooser(seed + 7)
         for k in range(n_cfg):  # random layout closures through a drawn entry point (thorough)
@@ -641,6 +813,10 @@ def shard(idx: int, nshards: int, seed: int, n_layout: int, n_general: int, gcc_
     sb = G.ShrinkBudget(15)
     hyp_run(sb.body(body), sb.wrap(G.programs(validate_alignment=True, import_coredefs=False, max_files=4,
                                              allow=("alias-of-imported-struct", "alias-of-imported-struct-field", "struct-contains-message", "signed-char"))), seed + 1, n_general, res)
+    sb = G.ShrinkBudget(15)
+    hyp_run(sb.body(body), sb.wrap(L.padname_programs()), seed + 2, n_padname, res)
+    sb = G.ShrinkBudget(15)
+    hyp_run(sb.body(lambda h: check_history(h, res)), sb.wrap(L.layout_histories()), seed + 3, n_hist, res)
     return res
 
 
@@ -651,7 +827,8 @@ def run(ctx: RunContext) -> int:
     n_layout = ctx.scale(600, 6000)
     n_general = ctx.scale(150, 1500)
     gcc_every = 12 if ctx.quick else 1
-    res = run_shards(shard, [(i, 16, derive_seed(ctx.seed, i), n_layout, n_general, gcc_every, 0 if ctx.quick else 12) for i in range(16)])
+    res = run_shards(shard, [(i, 16, derive_seed(ctx.seed, i), n_layout, n_general, gcc_every, 0 if ctx.quick else 12, ctx.scale(40, 800),
+                              ctx.scale(60, 2500)) for i in range(16)])
     res.notes.append(f"exhaustive sub-domain complete: all {sum(1 for _ in all_sequences())} sequences of <= 4 fields over "
                      "{1,2,4,8}-byte scalars and arrays of length 1 and 3, as struct and as array element of a wrapper message, auto_pad on and off")
     return conclude(ctx, res, RULE, ASSUME, t0)
@@ -659,6 +836,10 @@ def run(ctx: RunContext) -> int:
 
 def replay_trace(trace: dict):
     G.quiet()
+    if "history" in trace:
+        h = trace["history"]
+        check_history({"steps": [G.Program.from_json(q) for q in h["steps"]], "clear": h["clear"], "ops": h.get("ops") or [[] for _ in h["steps"]]})
+        return
     p = G.Program.from_json(trace["program"])
     if "config" in trace:
         config_case(p, trace["config"])
